@@ -37,6 +37,7 @@ CONSTANTS Depths,        \* nesting depths / chain lengths to try
           SafeDepth,     \* a nesting depth that certainly fits the stack of a server thread (2 MiB)
           SafeChain,     \* a fragment-chain length that certainly fits it
           HeavyTransports,  \* transports for the size-parameterised document classes
+          Wide,          \* TRUE: the larger grid of block-string shapes (thorough tier)
           Dev            \* deviations of today's code that are switched on (mode M only)
 
 Transports == {"execute", "json", "get", "multipart", "ws"}
@@ -91,6 +92,19 @@ Sized(pos)    == pos \in {"huge_key", "many_params", "variables_deep", "deep_unk
                           "map_deep_path", "map_many_paths", "huge_boundary", "huge_header", "many_parts", "introspection_deep"}
 WsSized(w)    == w \in {"huge_id", "deep_init_payload", "deep_ping_payload", "many_frames"}
 KOf(sized)    == IF sized THEN Sizes ELSE {0}
+\* small documents whose fragment spreads form a cycle that an operation reaches (1-3 fragments, every shape), under
+\* every server configuration: validation mode x request limits (sub)
+CycleShapes   == {"self", "self_only", "mutual", "triangle", "below_field", "below_field_mutual", "inline", "typed_inline", "self_twice",
+                  "tail_cycle", "second_operation", "mutation_root", "subscription_root", "unused_small", "with_directive", "with_variable"}
+SchemaCfgs    == {"strict", "fast", "strict_limits", "fast_limits"}
+\* block strings in which a line starts (after an ASCII indent) with a multi-byte / exotic character, alone or beside an
+\* ordinary line of smaller / bigger indent: sub = indent.lead.content.other
+BsIndents     == IF Wide THEN {"0", "1", "2", "4", "t", "st"} ELSE {"0", "2", "t"}
+BsLeads       == {"nbsp", "emsp", "idsp", "bom", "nel", "l2", "l3", "l4", "a"} \cup (IF Wide THEN {"ls", "two"} ELSE {})
+BsContents    == {"e", "x"} \cup (IF Wide THEN {"sp"} ELSE {})
+BsOthers      == {"none", "small", "big"} \cup (IF Wide THEN {"small_first", "tab", "blank"} ELSE {})
+BsSubs        == {i \o "." \o ld \o "." \o ct \o "." \o o : i \in BsIndents, ld \in BsLeads, ct \in BsContents, o \in BsOthers}
+BsPos         == {"arg", "var_default", "input_field"} \cup (IF Wide THEN {"arg_first_line", "list_item"} ELSE {})
 
 C(cl, p, k, t) == [class |-> cl, pos |-> p, sub |-> "", k |-> k, transport |-> t]
 C2(cl, p, sb, k, t) == [class |-> cl, pos |-> p, sub |-> sb, k |-> k, transport |-> t]
@@ -117,6 +131,9 @@ DocCases ==
   \cup UNION {{C("bad_document", p, k, t) : k \in KOf(Sized(p)), t \in Transports} : p \in BadDocs}
   \cup {C("request_ext", p, 0, t) : p \in ExtPos, t \in Transports}
   \cup {C("request_ext_noquery", p, 0, t) : p \in {"apq_unknown_hash", "apq_version_2"}, t \in Transports}
+  \cup {C2("small_cycle", p, cfg, 0, t) : p \in CycleShapes, cfg \in SchemaCfgs, t \in Transports}
+  \cup {C2("block_string", "arg", sb, 0, t) : sb \in BsSubs, t \in HeavyTransports}
+  \cup {C2("block_string", p, sb, 0, t) : p \in BsPos \ {"arg"}, sb \in BsSubs, t \in {"execute", "json"}}
   \cup {C("benign", p, 0, t) : p \in {"query", "variables", "subscription"}, t \in Transports}
   \cup {C("benign", "upload", 0, "multipart")}
 \* transport-borne classes: the hostile part is in the bytes of one transport
@@ -157,6 +174,9 @@ RefusedAt(c) ==
     [] cl = "nest_vartype" -> "free"
     [] cl = "frag_chain" -> "free"
     [] cl = "frag_cycle" -> "validate"                        \* spec 5.5.2.2 Fragment spreads must not form cycles
+    \* a cycle that no operation reaches may be served by the reduced validation of ValidationMode::Fast (it is never walked)
+    [] cl = "small_cycle" -> IF p = "unused_small" /\ c.sub \in {"fast", "fast_limits"} THEN "free" ELSE "validate"
+    [] cl = "block_string" -> "free"                          \* every block string is a well-formed value (spec 2.9.4); C13 judges the value
     [] cl = "big_number" -> IF p = "int" /\ c.sub # "minus_zero" THEN "validate" ELSE "free"   \* Int is 32 bit
     [] cl = "bad_string" -> IF p = "nul_char" THEN "free" ELSE IF c.k = 2 THEN "decode" ELSE "parse"
     [] cl = "undefined_type" -> "validate"                    \* spec 5.8.2 Variables are input types / 5.5.1.2
@@ -209,23 +229,15 @@ Allowed(c) == CASE Expect(c) = "error" -> {"errors", "reject", "close"}
 (* Named deviations of today's code.  Each is triggered by a syntactic feature   *)
 (* of the input (computed by the harness from the payload bytes) and excuses     *)
 (* exactly one kind of crash.                                                    *)
-\* feat = [marker: the payload contains the upload marker text "#__graphql_file__:",
-\*         undef:  a variable definition `$v: [..X..]` whose named type X the schema does not define,
-\*         depth:  deepest nesting of [ and { in the payload,
-\*         frags:  number of fragment definitions,
-\*         mpmp:   a multipart part that itself declares Content-Type: multipart/...]
-DevUploadMarker   == "DevUploadMarker"       \* Upload::parse unwraps parse::<usize>(); Upload::value indexes uploads[i]
-DevUndefinedType  == "DevUndefinedType"      \* is_valid_input_value panics on an undefined type name inside a list type
+\* feat = [depth: deepest nesting of [ and { in the payload, frags: number of fragment definitions]
+\* (the switches DevUploadMarker, DevUndefinedType and DevNestedMultipart are gone: fixed in /repo, see known_findings/C12.json)
 DevParserDepth    == "DevParserDepth"        \* the pest parser recurses on nesting before any depth check
 DevFragmentChain  == "DevFragmentChain"      \* NoFragmentCycles::detect_from recurses along spreads of unused fragments
-DevNestedMultipart == "DevNestedMultipart"   \* assert_ne!(content type, multipart) on a part's own Content-Type
-AllDevs == {DevUploadMarker, DevUndefinedType, DevParserDepth, DevFragmentChain, DevNestedMultipart}
+AllDevs == {DevParserDepth, DevFragmentChain}
 
 Triggered(feat) ==
-  (IF feat.marker THEN {DevUploadMarker} ELSE {}) \cup (IF feat.undef THEN {DevUndefinedType} ELSE {})
-  \cup (IF feat.depth > SafeDepth THEN {DevParserDepth} ELSE {}) \cup (IF feat.frags > SafeChain THEN {DevFragmentChain} ELSE {})
-  \cup (IF feat.mpmp THEN {DevNestedMultipart} ELSE {})
-CrashOf(d) == IF d \in {DevParserDepth, DevFragmentChain} THEN "abort" ELSE "panic"
+  (IF feat.depth > SafeDepth THEN {DevParserDepth} ELSE {}) \cup (IF feat.frags > SafeChain THEN {DevFragmentChain} ELSE {})
+CrashOf(d) == "abort"
 \* deviations that explain the observed crash on this input
 Explains(feat, outcome) == {d \in Triggered(feat) : CrashOf(d) = outcome}
 
@@ -233,11 +245,8 @@ Explains(feat, outcome) == {d \in Triggered(feat) : CrashOf(d) = outcome}
 (* The features of the structured cases, as the spec sees them (mode M uses them; *)
 (* in mode V the harness reports the features of the bytes it actually sent).    *)
 NestClasses == {"nest_list", "nest_obj", "nest_sel", "nest_vartype"}
-FeatOf(c) == [marker |-> c.class \in MarkerClasses \/ (c.class = "mp_structure" /\ c.pos \in {"marker_with_file", "marker_alias_file"}),
-              undef  |-> c.class = "undefined_type" /\ c.pos \notin {"named_default", "nonnull_named_default", "fragment_on"},
-              depth  |-> IF c.class \in NestClasses THEN c.k ELSE 0,
-              frags  |-> IF c.class \in {"frag_chain", "frag_cycle"} THEN c.k ELSE 0,
-              mpmp   |-> c.class = "mp_structure" /\ c.pos = "part_multipart_content_type"]
+FeatOf(c) == [depth  |-> IF c.class \in NestClasses THEN c.k ELSE 0,
+              frags  |-> IF c.class \in {"frag_chain", "frag_cycle"} THEN c.k ELSE 0]
 
 --------------------------------------------------------------------------------
 (* The state machine: one case through the stages.                               *)
@@ -268,15 +277,9 @@ Descend == /\ stage \in {"parse", "validate"} /\ answer = "none" /\ level < Recu
                                                 ELSE answer' = answer /\ level' = IF level + 100 < Recursion(stage, case) THEN level + 100 ELSE Recursion(stage, case)
            /\ UNCHANGED <<case, stage>>
 
-\* The stage has consumed its input: refuse, crash on a deviation, or hand over.
-PointDev(s, c) ==        \* non-recursive deviations strike at one stage
-  LET f == FeatOf(c) IN
-  (IF s = "decode" /\ f.mpmp THEN {DevNestedMultipart} ELSE {})
-  \cup (IF s = "validate" /\ f.undef THEN {DevUndefinedType} ELSE {})
-  \cup (IF s \in {"coerce", "execute"} /\ f.marker /\ RefusedAt(c) = "coerce" THEN {DevUploadMarker} ELSE {})
+\* The stage has consumed its input: refuse, or hand over.
 Finish == /\ stage \in {Stages[i] : i \in 1..Len(Stages)} /\ answer = "none" /\ level >= Recursion(stage, case)
-          /\ IF PointDev(stage, case) \cap Dev # {} THEN answer' = "panic" /\ stage' = stage
-             ELSE IF RefusedAt(case) = stage THEN answer' = ErrorOf(stage, case) /\ stage' = stage
+          /\ IF RefusedAt(case) = stage THEN answer' = ErrorOf(stage, case) /\ stage' = stage
              ELSE IF stage = "execute" THEN answer' \in (IF RefusedAt(case) = "free" THEN {"data", "errors"} ELSE {"data"}) /\ stage' = stage
              ELSE answer' = answer /\ stage' = Stages[StageIx(stage) + 1]
           /\ level' = 0 /\ UNCHANGED case
